@@ -142,6 +142,34 @@ def fmt_hist(header, ops, lines=None, upto=None):
         out.append(render(op) + ("    => " + lines[i] if lines else ""))
     return out
 
+def arrival_mismatch(r):
+    """Conveyor families: the theorems fix the instant at which an item is offered at the exit (entry + belt travel + time
+    it was stopped).  If, on a history on which code and model agreed on EVERYTHING up to some line, that line is a kernel
+    step at which exactly one of the two reports an item reaching the exit, the code offers that item earlier (or later)
+    than the exact accounting allows: a concrete failing input.  (Differences in anything else stay `no-failing-input-found`.)"""
+    from judges import parse_ready
+    best = None
+    for (j, dj) in r.div:
+        hj, oj, ilj = r.traces[j]
+        mlj = r.model[j]
+        if mlj is None or dj >= len(mlj) or dj >= len(ilj) or oj[dj][0] != "ev": continue
+        a, b = ilj[dj], mlj[dj]
+        if a.startswith("err") or b in ("GAVEUP",) or "FLAGGED" in b: continue
+        try: ra, rb = parse_ready(a), parse_ready(b)
+        except Exception: continue
+        if ra == rb: continue
+        ta = a.split("|")[0].strip()
+        if ra and not rb:
+            msg = (f"item {ra[0]} is offered at the exit at {ta} although, by the exact travel accounting (entry + belt travel time + "
+                   f"time it was stopped) that code and model agreed on up to this kernel step, it cannot be there yet")
+        elif rb and not ra:
+            msg = (f"item {rb[0]} must be offered at the exit at this kernel step ({b.split('|')[0].strip()}) by the exact travel accounting "
+                   f"(it resumes from where it stopped), but the conveyor does not offer it")
+        else:
+            msg = f"the conveyor offers items {ra} at this kernel step, the exact travel accounting gives {rb}"
+        if best is None or dj < best[2]: best = (hj, oj, dj, msg)
+    return best
+
 def check_property(pid, tier, seed):
     t0 = time.time()
     say(f"[check {pid}] tier={tier} seed={seed} repo={REPO} src={src_tree_hash()}")
@@ -229,7 +257,16 @@ def check_property(pid, tier, seed):
             detail = dict(facet=f"lockstep:{fam}", diverging_histories=len(r.div),
                           minimal=[f"{render(o)}    => impl: {a}    model: {b}" for o, a, b in zip(small, sl, ml)],
                           header=h)
-            if found:
+            timing = None
+            if not found and fam in ("slot", "cbelt") and pid in ("C12", "C13"):
+                try: timing = arrival_mismatch(r)
+                except Exception: timing = None
+            if timing:
+                hj, oj, k, msg = timing
+                path = checklib.write_replay(pid, seed, "arrival-time", hj, list(oj[:k + 1]),
+                                             dict(detail, message=msg, observed=fmt_hist(hj, oj, run_impl(hj, list(oj[:k + 1])))[-30:]))
+                violations.append((path, msg))
+            elif found:
                 hj, oj = found
                 sm = shrink(hj, list(oj), lambda hh, oo: store_family.judge_fails(JUDGE_PROPS[pid], hh, oo))
                 path = checklib.write_replay(pid, seed, "judge-after-divergence", hj, sm, dict(detail, observed=fmt_hist(hj, sm, run_impl(hj, sm))))
